@@ -92,6 +92,15 @@ class Protocol(Component):
         else:
             self.fire(write(packet))
 
+    @handler('exception', channel='*', priority=100)
+    def exception_handler(self, error_type, error, traceback, handler=None, fevent=None):
+        # no "success" will follow: tell the caller that the call has failed
+        if getattr(fevent, 'node_call_id', False) is not False and fevent.value.manager is self:
+            value = Value()
+            value.value = [error_type.__name__, str(error), traceback]
+            value.errors = True
+            self.send_result(fevent.node_call_id, value)
+
     def __process_packet(self, packet):
         packet = packet.decode('utf-8')
 
@@ -136,7 +145,7 @@ class Protocol(Component):
 
             # save result
             ev.value.setValue(value)
-            ev.errors = error
+            ev.errors = ev.value.errors = bool(error)
             ev.remote_finish = True
 
             for k, v in meta.items():
